@@ -567,7 +567,36 @@ func main() {
 			}
 			run.Outcome(fmt.Sprint(c.Scenario, c.Who, c.Mode, f == nil))
 			if f != nil {
-				run.Violation(f.Sig, map[string]any{"case": c, "msg": f.Msg})
+				// the racing order of these executions is the Go scheduler's: a failure counts when the same
+				// case fails the same way again within 40 more runs (or 90 s); the rate is part of the report
+				again, runs := 0, 0
+				if run.Replay == "" {
+					t0 := time.Now()
+					for runs < 40 && again < 2 && time.Since(t0) < 90*time.Second {
+						batch := make([]Case, 4)
+						for i := range batch {
+							batch[i] = c
+						}
+						rr := evid.RunJobs([]any{jobT{batch}}, 1, 3*time.Minute)
+						runs += len(batch)
+						if rr[0].Crashed || rr[0].Stalled {
+							again++
+							continue
+						}
+						var o2 jobOut
+						json.Unmarshal(rr[0].Output, &o2) //nolint:errcheck
+						for _, f2 := range o2.Fails {
+							if f2 != nil && f2.Sig == f.Sig {
+								again++
+							}
+						}
+					}
+					if again == 0 {
+						run.Flaky(fmt.Sprintf("%s: failed once, not again in %d more runs of the same case: %s", f.Sig, runs, f.Msg))
+						continue
+					}
+				}
+				run.Violation(f.Sig, map[string]any{"case": c, "msg": f.Msg, "reproduced": fmt.Sprintf("%d times in %d more runs", again, runs)})
 			} else if run.NeedSample() && k == 3 {
 				run.Sample(c)
 			}
